@@ -188,6 +188,46 @@ def main_wrapper(fn, pid, argv):
             return 2
     seed = int(os.environ.get("VERIF_SEED", "0") or 0)
     run = Run(pid, tier, seed)
+    # watchdog: a check that does not finish is a machinery failure, never a silent hang (quick 30 min, thorough
+    # 3 h; VERIF_WATCHDOG_S overrides).  The process group is killed so that no worker or TLC run survives.
+    import signal
+
+    limit = int(os.environ.get("VERIF_WATCHDOG_S", "0") or 0) or (10800 if tier == "thorough" else 1800)
+
+    def _watchdog(signum, frame):
+        print("MACHINERY-FAILURE property=%s: watchdog: no result after %d s" % (pid, limit), flush=True)
+        try:
+            # every descendant (pool workers, TLC's JVM), found through /proc
+            me = os.getpid()
+            parent = {}
+            for d in os.listdir("/proc"):
+                if d.isdigit():
+                    try:
+                        with open("/proc/%s/stat" % d) as f:
+                            parent[int(d)] = int(f.read().rsplit(")", 1)[1].split()[1])
+                    except Exception:  # noqa
+                        pass
+            doomed, frontier = [], [me]
+            while frontier:
+                cur = frontier.pop()
+                for c_, p_ in parent.items():
+                    if p_ == cur and c_ not in doomed:
+                        doomed.append(c_)
+                        frontier.append(c_)
+            for c_ in doomed:
+                try:
+                    os.kill(c_, signal.SIGKILL)
+                except Exception:  # noqa
+                    pass
+        except Exception:  # noqa
+            pass
+        os._exit(2)
+
+    try:
+        signal.signal(signal.SIGALRM, _watchdog)
+        signal.alarm(limit)
+    except Exception:  # noqa  (not the main thread: no watchdog)
+        pass
     try:
         if replay:
             run.replay_mode = True
